@@ -1,7 +1,181 @@
-(** C18 — property theorems (statements only; proofs are in C18/Proofs.v). *)
+(** C18 — property theorems (statements only; proofs are in C18/Proofs.v).
+
+    Model: C18/Model.v (codec, expect/send/relay states, Pipe, the readiness
+    loop of TcpSession), of the tree after the two fix: commits. *)
 From Coq Require Import List Arith NArith Lia Bool.
-From SV Require Import Common.Buf C18.Gen C18.Model.
+From SV Require Import Common.Buf C18.Gen C18.Model C18.Proofs.
 Import ListNotations.
 
-Theorem be16_length : forall x, length (be16 x) = 2.
-Proof. reflexivity. Qed.
+(* ---------------- codec ---------------- *)
+
+(** [parse (into_bytes h ++ tail) = Ok (tail, h)] for every well-formed IPv4,
+    IPv6 and UNSPEC header (any command, any family byte with the right high
+    nibble) and every tail *)
+Theorem v2_roundtrip :
+  forall h tail, wf_header h -> parse_v2 (into_bytes h ++ tail) = POk tail h.
+Proof. exact v2_roundtrip_lemma. Qed.
+
+(** for EVERY byte list: an accepted input is signature, version/command,
+    family with nibble <= 2, a big-endian length l, exactly l bytes, and the
+    remainder handed back untouched — consumption is exactly 16 + l *)
+Theorem v2_exact_consumption :
+  forall i rest h, parse_v2 i = POk rest h ->
+  exists a b data,
+    i = sig ++ [cmd_byte (hcmd h)] ++ [hfam h] ++ [a; b] ++ data ++ rest /\
+    length data = N.to_nat (256 * a + b) /\
+    (N.modulo (N.div (hfam h) 16) 16 <= 2)%N.
+Proof. exact parse_v2_ok_shape. Qed.
+
+(** however the header is fragmented: a verdict never changes when more bytes
+    arrive, and every proper prefix of an accepted header is Incomplete *)
+Theorem v2_verdict_stable :
+  forall i m,
+    (forall rest h, parse_v2 i = POk rest h -> parse_v2 (i ++ m) = POk (rest ++ m) h) /\
+    (parse_v2 i = PError -> parse_v2 (i ++ m) = PError).
+Proof. intros i m; split; [intros rest h; apply parse_v2_ok_app|apply parse_v2_err_app]. Qed.
+
+Theorem v2_prefix_incomplete :
+  forall hb h k, parse_v2 hb = POk [] h -> k < length hb -> parse_v2 (firstn k hb) = PIncomplete.
+Proof. exact parse_v2_prefix_incomplete. Qed.
+
+(** an AF_UNIX header (and any family nibble > 2) is rejected *)
+Theorem v2_unix_rejected :
+  forall c s d tail, length s = 108 -> length d = 108 ->
+    parse_v2 (into_bytes (mkh c 49%N (AUnix s d)) ++ tail) = PError.
+Proof.
+  intros c s d tail Ls Ld. unfold parse_v2, into_bytes. rewrite <- !app_assoc. rewrite tag_self.
+  cbn [hcmd hfam haddr addr_len addr_bytes].
+  assert (C : forall r, parse_command ([cmd_byte c] ++ r) = Done r c) by (intros r; destruct c; reflexivity).
+  rewrite C. cbn [app be_u8]. change (be16 (N.of_nat 216)) with [0%N; 216%N]. cbn [app be_u16].
+  change (N.to_nat (256 * 0 + 216)) with 216.
+  rewrite take_exact by (rewrite app_length; lia). reflexivity.
+Qed.
+
+(* ---------------- expect ---------------- *)
+
+(** FULL STATEMENT (expect_any_split): for every split of [hb ++ payload] into
+    read chunks the state ends in Upgrade with the header's addresses and the
+    bytes handed to the pipe plus the unread bytes are exactly [payload].
+    Proved below per read ([expect_readable] is the only function of the state
+    that touches the stream; the loop that calls it is [ready_loop], whose
+    other handlers are no-ops in this state): whatever part of the stream has
+    arrived, a read never closes, never loses or reorders a byte, upgrades
+    exactly when the header is complete, with that header's addresses, and
+    [into_pipe] hands over exactly what was read behind the header.  The
+    induction over the chunk list on top of these per-read facts is not
+    mechanised: *_partial. *)
+Theorem expect_any_split_partial :
+  forall hb h pl fut x s x' s' r,
+    parse_v2 hb = POk [] h -> length hb <= window_unix ->
+    xbuf x ++ inq s ++ fut = hb ++ pl ->                 (* any position in any split *)
+    ieof s = false -> ierr s = false ->
+    length (xbuf x) <= stage_len (xstage x) ->
+    expect_readable x s = (x', s', r) ->
+    r <> Close /\
+    (r = Upgrade -> xaddr x' = Some (haddr h) /\ length hb <= length (xbuf x') /\
+                    parse_v2 (xbuf x') = POk (skipn (length hb) (xbuf x')) h) /\
+    (r = Continue -> length (xbuf x') < length hb).
+Proof. exact expect_step_valid. Qed.
+
+(** no byte is lost by a read, the window bound is kept, an Upgrade carries the parsed addresses *)
+Theorem expect_stream_conserved :
+  forall x s x' s' r,
+    expect_readable x s = (x', s', r) -> length (xbuf x) <= stage_len (xstage x) ->
+    exists bs, xbuf x' = xbuf x ++ bs /\ bs ++ inq s' = inq s /\
+               length (xbuf x') <= stage_len (xstage x') /\ outq s' = outq s /\
+               (r = Upgrade -> exists rest h, parse_v2 (xbuf x') = POk rest h /\ xaddr x' = Some (haddr h)).
+Proof. exact expect_readable_spec. Qed.
+
+(** [into_pipe]: the bytes read behind the header are the pipe's first bytes (after fix 60df1a1) *)
+Theorem expect_no_loss :
+  forall x size hb rest h,
+    parse_v2 (xbuf x) = POk rest h -> length rest <= size ->
+    dat (fbuf (expect_into_pipe x size hb)) = rest.
+Proof. exact expect_handoff. Qed.
+
+Theorem expect_malformed_closes :
+  forall x s x' s' r, expect_readable x s = (x', s', r) ->
+    parse_v2 (xbuf x') = PError -> length (xbuf x') <> 0 -> r = Close.
+Proof. exact expect_error_closes. Qed.
+
+Theorem oversize_closes :
+  forall x s x' s' r, expect_readable x s = (x', s', r) ->
+    xstage x = SUnix -> length (xbuf x') = window_unix ->
+    (forall rest h, parse_v2 (xbuf x') <> POk rest h) -> r = Close.
+Proof. exact expect_oversize_closes. Qed.
+
+(* ---------------- send ---------------- *)
+
+(** under ANY schedule of write windows (one [back_writable] call per entry)
+    the backend has received a prefix of the header and nothing else; the
+    state upgrades exactly when the whole header is out, once; it never closes
+    while the backend accepts writes *)
+Theorem send_exactly_once :
+  forall sched hdr0 s x' s' r,
+    send_run (send_connected send_new) hdr0 s sched = (x', s', r) ->
+    wclosed s = false -> outq s = [] ->
+    outq s' = firstn (scursor x') hdr0 /\ r <> Close /\ (r = Upgrade -> outq s' = hdr0).
+Proof.
+  intros sched hdr0 s x' s' r H WC O.
+  pose proof (send_run_spec sched (send_connected send_new) hdr0 s x' s' r H eq_refl WC
+                            (or_introl (conj eq_refl eq_refl)) (Nat.le_0_l _) [] O) as (A & B & C & D).
+  cbn [app] in A, D. repeat split; assumption.
+Qed.
+
+(* ---------------- relay ---------------- *)
+
+(** after fix e03b0f2: once [readable] has recorded a header size, the header is
+    in the buffer, and [back_writable] returns under every write behaviour
+    (before the fix it looped forever) *)
+Theorem relay_no_spin :
+  forall x s x1 s1 r hs b,
+    relay_readable x s = (x1, s1, r) -> rhsize x = None -> rcursor x = 0 -> rhsize x1 = Some hs ->
+    exists x2 b2 r2, relay_back_writable (relay_connected x1) b = (x2, b2, Some r2).
+Proof.
+  intros x s x1 s1 r hs b H N C S.
+  destruct (relay_readable_sets_invariant _ _ _ _ _ _ H N S) as [C1 L].
+  unfold relay_back_writable, relay_connected. cbn [rback rhsize rbuf]. rewrite S.
+  apply relay_loop_returns; cbn [rcursor rbuf]; unfold avail_data; lia.
+Qed.
+
+(* ---------------- pipe ---------------- *)
+
+(** pipe_exact, safety half: for EVERY state of a pipe session (buffers,
+    statuses, readiness words, sockets) one pass of the readiness loop — any
+    combination of the six handlers, partial writes, errors, closes — leaves
+    [received ++ buffered ++ unread] unchanged in both directions: what each
+    side has received is always a prefix, in order, of what the other sent *)
+Theorem pipe_exact_streams :
+  forall e e' r, is_pipe e -> ready_inner e = (e', r) ->
+    is_pipe e' /\ front_stream e' = front_stream e /\ back_stream e' = back_stream e.
+Proof. exact ready_inner_same. Qed.
+
+(** eof_after_drain is REFUTED for the client side (open finding): the client
+    sends 5 bytes and closes; the pipe reads them and closes at once *)
+Theorem eof_after_drain_refuted :
+  exists p s p' s',
+    pipe_readable p s = (p', s', Close) /\ ieof s = true /\ ierr s = false /\
+    bst p = CNormal /\ avail_data (fbuf p') = 5.
+Proof.
+  exists (pipe_new 32 true), (mksock [104;101;108;108;111]%N true false None false []).
+  eexists. eexists. vm_compute. repeat split; reflexivity.
+Qed.
+
+(* ---------------- non-vacuity ---------------- *)
+
+Example v2_roundtrip_nonvacuous :
+  wf_header (header_new Proxy [1;2;3;4]%N 80 [5;6;7;8]%N 443) /\
+  wf_header (header_new Local (repeat 0%N 15 ++ [1%N]) 1 (repeat 255%N 16) 65535) /\
+  wf_header (mkh Local 0 AUnspec).
+Proof. vm_compute. repeat split; try reflexivity; try lia; intros; discriminate. Qed.
+
+Example expect_nonvacuous :
+  let hb := into_bytes (mkh Local 0 AUnspec) in
+  exists x' s', expect_readable expect_new (mksock (hb ++ [1;2;3]%N) false false None false []) = (x', s', Upgrade)
+                /\ dat (fbuf (expect_into_pipe x' 256 true)) = [1;2;3]%N.
+Proof. eexists. eexists. vm_compute. split; reflexivity. Qed.
+
+Example pipe_nonvacuous :
+  is_pipe (mkenv (SPipe (p_fe (pipe_new 16 true) (mkrd true false false false)))
+                 (mksock [1;2;3]%N false false None false []) sock0 16 false []).
+Proof. eexists; reflexivity. Qed.
